@@ -663,6 +663,42 @@ func c19Special(c *Ctx) {
 				if !okErr {
 					ok, why = false, "the parser's error is dropped (malformed values would be accepted)"
 				}
+				// what is stored is the parsed value itself (conversions only): rounding, truncating
+				// or clamping it maps some texts onto a different documented meaning
+				if ok {
+					for _, g := range region(fn) {
+						eachInstr(g, func(i ssa.Instruction) {
+							st, isSt := i.(*ssa.Store)
+							if !isSt || !ok {
+								return
+							}
+							if _, local := st.Addr.(*ssa.Alloc); local {
+								return
+							}
+							if _, isK := st.Val.(*ssa.Const); isK {
+								return
+							}
+							rewritten := ""
+							fromParser := false
+							flowsFrom(st.Val, func(v ssa.Value) bool {
+								switch x := v.(type) {
+								case *ssa.Call:
+									if x == call {
+										fromParser = true
+									} else if f := x.Call.StaticCallee(); f == nil || f.Pkg != fn.Pkg {
+										rewritten = callName(&x.Call)
+									}
+								case *ssa.BinOp:
+									rewritten = x.Op.String()
+								}
+								return false
+							})
+							if fromParser && rewritten != "" {
+								ok, why = false, "the parsed value is rewritten ("+rewritten+") before it is stored: some inputs end up with a different documented meaning"
+							}
+						})
+					}
+				}
 			}
 		}
 		if ok && w.name == "maxBodyFlag.Set" {
